@@ -259,6 +259,25 @@ def channel_pairing(ck, agg, b):
             wh = [e for e in out.trace if e.kind == "whitened"]
             coef = const_of(norm(wh[0].data[1][0])) if wh and wh[0].data[1] else None
             agg.add("R18.4", f_wh, "the whitening seed is (BLE channel) | 0x40 with channel = 37 + index", coef == ((TB.FIRST_ADV_CHANNEL + cur) | TB.WHITEN_SEED_BIT), "index %d: seed %r" % (cur, coef))
+    # leaving and re-entering a `with` block keeps the pairing: the index names the frequency the channel *shadow* holds, which is what
+    # __enter__ tunes the radio to again
+    for meth in ("__exit__", "__enter__"):
+        hit = b.cls.lookup(meth)
+        if hit is None or hit[0] != "method":
+            continue
+        f_cm = hit[1]
+        for cur in (0, 1, 2):
+            n += 1
+            st = b.fresh({5: freq[cur]}, fields={b.freq_index_field(): Const(cur)})
+            for out in b.run(f_cm, [Const(None)] * 3 if meth == "__exit__" else [], st):
+                if out.kind != "return":
+                    continue
+                idx = const_of(norm(b.obj(out.state).fields.get(b.freq_index_field())))
+                sh = b.shadow_value(out.state, 5)
+                shc = const_of(norm(sh)) if sh is not None and hasattr(sh, "key") else None
+                agg.add("R18.4", f_cm, "across `with` blocks the whitening index names the frequency the channel shadow holds", idx in (0, 1, 2) and shc == freq[idx],
+                        "%s on BLE channel %d: index becomes %r while the channel shadow holds %r - the next block is tuned to %s MHz but whitens for channel %s" % (
+                            meth, 37 + cur, idx, shc, 2400 + shc if isinstance(shc, int) else "?", 37 + idx if isinstance(idx, int) else "?"))
     # the constructor establishes the pairing
     for out in [o for o in b.init_outs if o.kind == "return"][:2]:
         idx = const_of(norm(b.obj(out.state).fields.get(b.freq_index_field())))
@@ -278,6 +297,17 @@ def constants(ck, agg, b):
         except ValueError:
             vals[k] = None
     agg.add("R18.5", f, "BLE CRC-24 polynomial 0x65B and advertising init value 0x555555", vals.get("deg_poly") == TB.CRC_POLY and vals.get("init_val") == TB.CRC_INIT, "defaults %r" % (vals,))
+    # name setter: what is stored is what is counted and emitted - bytes.  The length algebra (R18.1) is in bytes; a str kept as given is
+    # counted in characters and emitted in (more) UTF-8 bytes
+    from ..interp_expr import ty_of
+    f_name = P.method(b.cls, "name", "set")
+    st = b.fresh(fields={"_show_dbm": Const(False)})
+    for out in b.run(f_name, [Sym("n", "str", len=Sym(("len", "n"), "int", rng=(0, 8)))], st):
+        if out.kind != "return":
+            continue
+        v = b.obj(out.state).fields.get("_ble_name")
+        agg.add("R18.6", f_name, "a str name is stored encoded (bytes): the packet's length arithmetic counts bytes", ty_of(v) in ("bytes", "bytearray", "byteslike"),
+                "name = <str> stores %r (%s): len() of it counts characters, the advertisement carries its UTF-8 bytes" % (v, ty_of(v)))
     # mac setter: at least 6 bytes
     f_mac = P.method(b.cls, "mac", "set")
     n = 1
